@@ -1,0 +1,92 @@
+//! Support code for the out-of-tree verification harnesses (feature `verif-hooks`).
+//!
+//! Nothing in here is compiled unless the feature is enabled, and nothing in here changes the
+//! behaviour of the engine unless a harness registers a callback.
+use std::cell::UnsafeCell;
+
+/// A process-global stand-in for a `thread_local!` whose value needs `Drop`. Exposes the
+/// `LocalKey::with` surface used by the engine. Only sound for single-threaded use, which is what
+/// the verification harnesses do.
+pub struct VerifLocal<T: 'static> {
+    cell: UnsafeCell<Option<T>>,
+    init: fn() -> T,
+}
+
+// Safety: harnesses are single threaded.
+unsafe impl<T> Sync for VerifLocal<T> {}
+
+impl<T> std::fmt::Debug for VerifLocal<T> {
+    fn fmt(&self, f: &mut std::fmt::Formatter<'_>) -> std::fmt::Result {
+        f.debug_struct("VerifLocal").finish_non_exhaustive()
+    }
+}
+
+impl<T: 'static> VerifLocal<T> {
+    pub const fn new(init: fn() -> T) -> Self {
+        Self {
+            cell: UnsafeCell::new(None),
+            init,
+        }
+    }
+
+    pub fn with<F, R>(&'static self, f: F) -> R
+    where
+        F: FnOnce(&T) -> R,
+    {
+        // Safety: single threaded; the reference does not escape `f`.
+        let slot = unsafe { &mut *self.cell.get() };
+        if slot.is_none() {
+            *slot = Some((self.init)());
+        }
+        f(slot.as_ref().unwrap())
+    }
+
+    /// Drop the stored value, so that the next access re-initialises it.
+    pub fn reset(&'static self) {
+        // Safety: single threaded
+        unsafe { *self.cell.get() = None };
+    }
+}
+
+struct Callbacks {
+    switch: Option<fn()>,
+    resume: Option<fn(usize) -> bool>,
+}
+
+struct CallbackCell(UnsafeCell<Callbacks>);
+// Safety: harnesses are single threaded.
+unsafe impl Sync for CallbackCell {}
+
+static CALLBACKS: CallbackCell = CallbackCell(UnsafeCell::new(Callbacks {
+    switch: None,
+    resume: None,
+}));
+
+/// Register the function to be called in place of the coroutine switch at every scheduling point
+/// (`thread::switch`). While one is registered, `switch()` calls it and returns.
+pub fn set_switch_callback(f: Option<fn()>) {
+    unsafe { (*CALLBACKS.0.get()).switch = f };
+}
+
+/// Register the function that performs one step of the task with the given id in place of
+/// resuming its coroutine. Returns true if the task finished.
+pub fn set_resume_callback(f: Option<fn(usize) -> bool>) {
+    unsafe { (*CALLBACKS.0.get()).resume = f };
+}
+
+/// Called first thing in `thread::switch`. Returns true if the switch was intercepted.
+pub fn intercept_switch() -> bool {
+    match unsafe { (*CALLBACKS.0.get()).switch } {
+        Some(f) => {
+            f();
+            true
+        }
+        None => false,
+    }
+}
+
+/// Called by the execution loop in place of `continuation.resume()`.
+pub fn resume(task_id: usize) -> bool {
+    let f = unsafe { (*CALLBACKS.0.get()).resume }.expect("verif-hooks: no resume callback registered");
+    f(task_id)
+}
